@@ -88,6 +88,8 @@ def check_error_ord(ctx, rule):
 
 
 def check(ctx):
+    from .common import shadowing_audit
+    ctx.floor('R15.1', shadowing_audit(ctx, 'R15.1', ('std::cmp::', 'std::iter::Sum')), 20, 'comparison / Sum impls of workspace types (shadowing audit)')
     from .ctors import check_table
     check_table(ctx, "C15", "R15.6")
     F = ctx.F
